@@ -1,6 +1,7 @@
 package rules
 
 import (
+	"go/token"
 	"go/types"
 	"strings"
 
@@ -912,6 +913,7 @@ func eachChangeOnItsOwn(r *an.Run, rule string, compileOnly bool) {
 			}
 		}
 	}
+	n += listsHandedOutStayInOrder(r)
 	r.Count("per-change independence sites", n)
 	if compileOnly {
 		r.Min("per-change independence sites", 2)
@@ -965,4 +967,130 @@ func positionsResolvedByTheFileSet(r *an.Run, rule string) {
 	r.Count("positions resolved by the FileSet in engine and parse", nSet)
 	r.Min("positions resolved by the FileSet in engine and parse", 6)
 	r.Pass("resolved-by-the-fileset", 0, "%d positions are resolved by the FileSet itself, %d by a token.File looked up for the position", nSet, nFile)
+}
+
+// listsHandedOutStayInOrder: a list kept in a field of a compiler object of
+// which pieces (sub-slices) are handed to compiled matchers — the
+// per-section metavariable names a SliceDotsMatcher keeps are
+// c.metavars[seen:len:len] — is never permuted or written by index afterwards:
+// no sort / reverse of (a value that may be) that field, directly or through a
+// parameter bound to it at a call site, and no element store. The pieces share
+// the backing array; sorted in place they name other metavariables than the
+// sections they were cut for. Obligations go to the current rule.
+func listsHandedOutStayInOrder(r *an.Run) int {
+	type fieldKey struct {
+		t   string
+		idx int
+	}
+	isCompilerField := func(v ssa.Value) (fieldKey, bool) {
+		ld, ok := v.(*ssa.UnOp)
+		if !ok || ld.Op != token.MUL {
+			return fieldKey{}, false
+		}
+		fa, ok := ld.X.(*ssa.FieldAddr)
+		if !ok || !strings.Contains(an.ShortType(fa.X.Type()), "ompiler") {
+			return fieldKey{}, false
+		}
+		return fieldKey{an.ShortType(fa.X.Type()), fa.Field}, true
+	}
+	handed := map[fieldKey]string{}
+	fns := r.P.PkgFuncs(engine)
+	for _, f := range fns {
+		for _, b := range f.Blocks {
+			for _, in := range b.Instrs {
+				sl, ok := in.(*ssa.Slice)
+				if !ok || (sl.Low == nil && sl.High == nil && sl.Max == nil) {
+					continue
+				}
+				if k, ok := isCompilerField(sl.X); ok {
+					if hi, isc := an.ConstInt(sl.High); isc && hi == 0 && sl.Low == nil {
+						continue // x.f[:0] is reported by the storage-reuse check
+					}
+					handed[k] = an.Path(sl.X)
+				}
+			}
+		}
+	}
+	n := 0
+	var mayBe func(v ssa.Value, depth int) (string, bool)
+	mayBe = func(v ssa.Value, depth int) (string, bool) {
+		if k, ok := isCompilerField(v); ok {
+			if name, isHanded := handed[k]; isHanded {
+				return name, true
+			}
+			return "", false
+		}
+		if depth > 3 {
+			return "", false
+		}
+		switch x := v.(type) {
+		case *ssa.Slice:
+			return mayBe(x.X, depth)
+		case *ssa.Phi:
+			for _, e := range x.Edges {
+				if name, ok := mayBe(e, depth+1); ok {
+					return name, true
+				}
+			}
+		case *ssa.ChangeType:
+			return mayBe(x.X, depth)
+		case *ssa.MakeInterface:
+			return mayBe(x.X, depth)
+		case *ssa.Parameter:
+			g := x.Parent()
+			for i, p := range g.Params {
+				if p != x {
+					continue
+				}
+				for _, c := range r.P.CallersOf(g) {
+					if c.Common().StaticCallee() != g || i >= len(c.Common().Args) {
+						continue
+					}
+					if name, ok := mayBe(c.Common().Args[i], depth+1); ok {
+						return name, true
+					}
+				}
+			}
+		case *ssa.UnOp:
+			// a local variable that was assigned the field
+			if al, ok := x.X.(*ssa.Alloc); ok && x.Op == token.MUL && al.Referrers() != nil {
+				for _, u := range *al.Referrers() {
+					if st, ok := u.(*ssa.Store); ok && st.Addr == ssa.Value(al) {
+						if name, ok := mayBe(st.Val, depth+1); ok {
+							return name, true
+						}
+					}
+				}
+			}
+		}
+		return "", false
+	}
+	for _, f := range fns {
+		for _, c := range an.Calls(f) {
+			if !(isSortCall(c) || an.IsCallTo(c, "slices.Reverse", "sort.Sort", "sort.Stable")) || len(c.Common().Args) == 0 {
+				continue
+			}
+			n++
+			if name, ok := mayBe(c.Common().Args[0], 0); ok {
+				r.Fail(short(f)+"|reorders-a-list-handed-out|"+name, c.Pos(), "%s reorders %s in place (%s): pieces of that list were handed to the matchers compiled before (the metavariable names of each \"...\" section), and they share its backing array — after the sort they name other metavariables, so the failure memo is kept or dropped for the wrong bindings", short(f), name, an.TrimModule(an.CalleeName(c)))
+			}
+		}
+		for _, in := range an.StoresIn(f) {
+			st, ok := in.(*ssa.Store)
+			if !ok {
+				continue
+			}
+			ia, ok := st.Addr.(*ssa.IndexAddr)
+			if !ok {
+				continue
+			}
+			if name, ok := mayBe(ia.X, 0); ok {
+				n++
+				r.Fail(short(f)+"|overwrites-a-list-handed-out|"+name, st.Pos(), "%s stores into an element of %s: pieces of that list were handed to the matchers compiled before", short(f), name)
+			}
+		}
+	}
+	r.Count("lists handed out in pieces", len(handed))
+	r.Min("lists handed out in pieces", 1)
+	return n
 }
